@@ -81,8 +81,8 @@ def main():
         return do_replay(prop, a.replay)
     load_all()
     known = load_known()
-    cids = sorted(c for c, ct in C.CONTRACTS.items() if ct.prop == prop and not ct.trusted)
-    trusted = sorted(c for c, ct in C.CONTRACTS.items() if ct.prop == prop and ct.trusted)
+    cids = sorted(c for c, ct in C.CONTRACTS.items() if (ct.prop == prop or prop in ct.also) and not ct.trusted)
+    trusted = sorted(c for c, ct in C.CONTRACTS.items() if (ct.prop == prop or prop in ct.also) and ct.trusted)
     timeout_ms = 10000 if tier == "quick" else 30000
     results = verify_many(cids, timeout_ms=timeout_ms) if cids else {}
 
